@@ -28,7 +28,8 @@ Record respobs := RO {
 }.
 
 Record segment := SG {
-  sg_muts : list (mutation val);
+  sg_muts : list step;                        (* an Init call is a segment of its own, its seeds listed in the order
+                                                 the store notified them (then the others) *)
   sg_changes : list (change val);             (* Store.OnChange reports *)
   sg_cbs : list cbobs;
   sg_results : list outcome;                  (* after Flush, per case query *)
@@ -39,7 +40,8 @@ Record segment := SG {
   sg_ar2pos : list nat;                       (* length of sg_pubs when that call was made *)
   sg_ar4 : list (list bytes);                 (* AffectedResources of "t.qp.$i" per call *)
   sg_resps : list respobs;
-  sg_fresh : list (option rvalue)             (* get per subscription after the segment; None = error *)
+  sg_fresh : list (option rvalue);            (* get per subscription after the segment; None = error *)
+  sg_stored : vstore val                      (* Store.Get of every id after the segment *)
 }.
 
 Record c14case := C14 {
@@ -166,13 +168,14 @@ Definition fresh_of (subs : list sub) (d : kdb) (s : sub) : option rvalue :=
 (* field codes: 1 OnChange reports  2 callbacks (which, order, id/before/after)
    3 query results inside a callback  4 Events() affected flags
    5 query results after Flush  6 handler publications  7 query responses
-   8 get responses after the segment *)
-Fixpoint check_segs (qs : list qd) (hon delayed : bool) (subs : list sub) (st : vstore val) (d : kdb)
+   8 get responses after the segment  14 stored values after the segment *)
+Fixpoint check_segs (qs : list qd) (hon delayed : bool) (subs : list sub) (inited : bool) (st : vstore val) (d : kdb)
                     (segs : list segment) : list N :=
   match segs with
   | [] => []
   | sg :: r =>
-    let cs := changes_of st (sg_muts sg) in
+    let (ms, inited') := flatten_steps inited (sg_muts sg) in
+    let cs := changes_of st ms in
     let (d', es) := run_changes idxs 2 d cs in
     let st' := fold_left apply_change cs st in
     let mcbs := flat_map (cb_of_effect qs) es in
@@ -183,13 +186,14 @@ Fixpoint check_segs (qs : list qd) (hon delayed : bool) (subs : list sub) (st : 
     (if outcomes_eqb (map (fun q => fetch_collection d' (to_iq q)) qs) (sg_results sg) then [] else [5]) ++
     (if negb hon || list_eqb pub_eqb (model_pubs subs cs (sg_ar2 sg) (sg_ar4 sg)) (sg_pubs sg) then [] else [6]) ++
     (if negb hon || forallb (resp_ok subs (filter (key_changed idxs) cs)
-                                     (delayed || Nat.eqb (length (sg_muts sg)) 1) d') (sg_resps sg) then [] else [7]) ++
+                                     (delayed || Nat.eqb (length ms) 1) d') (sg_resps sg) then [] else [7]) ++
     (if negb hon || list_eqb orv_eqb (map (fresh_of subs d') subs) (sg_fresh sg) then [] else [8]) ++
-    check_segs qs hon delayed subs st' d' r
+    (if store_eqb st' (sg_stored sg) then [] else [14]) ++
+    check_segs qs hon delayed subs inited' st' d' r
   end.
 
 Definition check_case (c : c14case) : list N :=
-  nodup N.eq_dec (check_segs (c_queries c) (c_handlers c) (c_delayed c) (c_subs c) [] [] (c_segs c)).
+  nodup N.eq_dec (check_segs (c_queries c) (c_handlers c) (c_delayed c) (c_subs c) false [] [] (c_segs c)).
 
 (* ---- the property on the implementation's outputs ---- *)
 Definition cb_change (x : cbobs) : change val := (cb_id x, cb_before x, cb_after x).
@@ -253,6 +257,8 @@ Fixpoint indexed {A} (i : nat) (l : list A) : list (nat * A) :=
    5 a subscribed client is not coherent with a fresh get after the segment
    7 an ordinary resource announced by AffectedResources before any failing resource of the same
      change, and whose result changed with that change, was not reset
+   8 the values the store holds differ from what its OnChange reports add up to (a change was
+     reported that did not happen, or happened unreported)
    6 after Flush a query does not return the scan of the values the store holds (the
      index lost or kept entries: index updates applied out of commit order) *)
 Fixpoint viol_segs (qs : list qd) (hon inject : bool) (subs : list sub) (st : vstore val)
@@ -282,7 +288,8 @@ Fixpoint viol_segs (qs : list qd) (hon inject : bool) (subs : list sub) (st : vs
                             (indexed 0 (combine subs (combine fresh_prev (sg_fresh sg)))) then [] else [5]) ++
     (if negb hon || forallb (resets_ok (sg_pubs sg))
                             (combine (kc_pairs st cs) (combine (sg_ar2 sg) (sg_ar2pos sg))) then [] else [7]) ++
-    (if outcomes_eqb (map (spec_on (fold_left apply_change cs st)) qs) (sg_results sg) then [] else [6]) ++
+    (if outcomes_eqb (map (spec_on (sg_stored sg)) qs) (sg_results sg) then [] else [6]) ++
+    (if store_eqb (fold_left apply_change cs st) (sg_stored sg) then [] else [8]) ++
     viol_segs qs hon inject subs (fold_left apply_change cs st) (sg_results sg)
               (if hon then sg_fresh sg else fresh_prev) r
   end.
